@@ -117,6 +117,8 @@ const (
 	// a lexical error (the tokenizer's message quotes the neighbouring source lines) next to text that looks like a
 	// position: an array slice on the line above / on the error line itself, and the words "line N" in an identifier
 	docT1 = "SELECT a FROM u;\nSELECT tags[4:1] FROM t;\nSELECT 1e;\nSELECT line_9 FROM v;"
+	// broken statements that are one word on a line of its own (the offending token is the last token of its line)
+	docW  = "SELECT a FROM u;\nfoo\nSELECT b FROM v;\nbar\nSELECT c FROM w;"
 	docT2 = "SELECT b FROM u;\nSELECT c FROM v;\nSELECT d FROM w;\nSELECT tags[1:7], 1e;"
 )
 
@@ -288,11 +290,12 @@ func alphabet() []item {
 		openItem("open-a", docA),
 		openItem("open-u", docU),
 		openItem("open-k", docK),
+		openItem("open-w", docW),
 		openItem("open-t1", docT1),
 		openItem("open-t2", docT2),
 		changeItem("chg-full", edit{Full: true, Text: docF}),
 		changeItem("chg-full-k", edit{Full: true, Text: docK}),
-		changeItem("chg-in", edit{S: pos{0, 8}, E: pos{0, 9}, Text: "x"}),                    // behind 'é' in docU
+		changeItem("chg-in", edit{S: pos{0, 8}, E: pos{0, 9}, Text: "x"}), // behind 'é' in docU
 		changeItem("chg-in-len", edit{S: pos{0, 7}, E: pos{0, 9}, Text: "x", WithLen: true}), // with rangeLength; replaces 'é' in docU
 		changeItem("chg-lines", edit{S: pos{0, 3}, E: pos{1, 2}, Text: "\n"}),                // spans a line break
 		changeItem("chg-eol", edit{S: pos{1, 4}, E: pos{1, 1000}, Text: " 1;"}),              // end past the end of the line
